@@ -187,6 +187,13 @@ def additive_trie(ctx: Ctx, rule: str) -> None:
                 conds = norm.conj([v.cond_formula(i) for i, s in enumerate(v.steps) if s.kind == "cond"])
                 if v.path.exit not in ("fall", "continue"):
                     ok = False
+                # a plain store to the variant's index entry replaces what was registered before: allowed only where the variant is not indexed yet
+                known = ("atom", f"{var} in self.variant_nodes")
+                for i, s in v.stmts(lambda s: isinstance(s, ast.Assign) and ast.unparse(s.targets[0]) == f"self.variant_nodes[{var}]"):
+                    before = norm.conj([v.cond_formula(j) for j, st in enumerate(v.steps[:i]) if st.kind == "cond"])
+                    if not norm.implies(before, norm.neg(known)):
+                        ok = False
+                        detail["index_entry_reset"] = first_line(s)
                 if norm.implies(conds, norm.neg(has)):
                     if not (len(created) == 1 and ast.unparse(created[0].value) == f"PrefixTreeNode({var})" and len(sets) == 1
                             and [ast.unparse(a) for a in sets[0].args] == [var, created[0].targets[0].id] and ast.unparse(sets[0].func.value) == cur
@@ -418,6 +425,7 @@ def run(ctx: Ctx) -> None:
 
 
 MUTANTS = [
+    ("index-entry-reset-on-every-insert", NODE, "                    if variant not in self.variant_nodes:\n                        self.variant_nodes[variant] = []\n", "                    if variant in self.variant_nodes or True:\n                        self.variant_nodes[variant] = []\n", "3i"),
     ("get-nodes-match-not-search", "cartgraph/graph.py", "            if param_key in n.params and regex.search(n.params[param_key])", "            if param_key in n.params and regex.match(n.params[param_key])", "8"),
     ("unique-tolerates-many", "cartgraph/graph.py", "        if len(items) > 1:\n            raise RuntimeError(\n                f\"Retrieved test node or object is not unique among {items}\"\n            )\n", "", "8u"),
     ("by-name-skips-flat", "cartgraph/graph.py", "        nodes = self.nodes_index.get(name)\n", "        nodes = [n for n in self.nodes_index.get(name) if not n.is_flat()]\n", "8n"),
